@@ -11,7 +11,7 @@ LEVEL_NOTE = 'Trusted: as C04; the dispatch deadline is judged only where the co
 TECHNIQUE = 'deterministic simulation: virtual-time event loop, arrival-grid exploration, history invariants over batches'
 CHUNK = 500
 DESIGN_REF = '3.10'
-PROFILES = [('c10', 40000)]
+PROFILES = [('c10', 32000), ('c10-tie', 12000)]
 
 
 def batches(tier):
